@@ -27,7 +27,9 @@ def configs(tier, seed):
                 continue
             variants = [""]
             if kind in ("uhf", "uhf_cpmc"):
-                variants = ["same", ""]
+                variants = ["same", ""] + (["complex"] if kind == "uhf" else [])
+            if kind == "rhf":
+                variants = ["", "complex"]
             if kind == "multislater":
                 ndet = len(trials.all_dets(n, na, nb))
                 variants = ["ref:%d" % k for k in (range(ndet) if (thorough or ndet <= 4) else sorted(set([0, 1, ndet // 2, ndet - 1])))]
